@@ -188,6 +188,10 @@ package nsqd
 //@ lock Channel.deferredMutex guards deferredMessages, deferredPQ, mapsof(map[MessageID]*pqueue.Item)
 //@   invariant[map] self.deferredMessages != nil
 //@   invariant[values] forall id MessageID :: {self.deferredMessages[id]} has(self.deferredMessages, id) ==> msgItem(self.deferredMessages[id])
+//   (area K) the deferred heap is well formed (back-pointers, order, room to grow) and holds only items that carry a message
+//@   invariant[heap] pqWf(self.deferredPQ)
+//@   invariant[heap-items] forall k int :: {self.deferredPQ[k]} 0 <= k && k < len(self.deferredPQ) ==> msgItem(self.deferredPQ[k])
+//@   assume cap(self.deferredPQ) < 4611686018427387903
 
 //@ pred isDeferred(c *Channel, id MessageID) := has(c.deferredMessages, id)
 
@@ -208,19 +212,27 @@ package nsqd
 //@   onreturn deferredPushes := deferredPushes + 1
 //@   onreturn deferredPushOK := deferredPushOK + (result == nil ? 1 : 0)
 //@   onreturn lastDeferredMsg := unbox(item.Value, "*Message")
+//@   onreturn lastDeferredItem := item
 
 // container/heap is outside the verified subset: the heap half of the deferred bookkeeping is assumed
 // to touch only the deferred heap (its slice, backing array and the items' back-index).
+// (area K) STILL TRUSTED: `heap.Push(&c.deferredPQ, item)` boxes the address of a struct field into an interface and
+// the engine loses the location (ENGINE GAPS), so the heap.Push extern cannot be bound to c.deferredPQ. Assumed here:
+// the call keeps the lock invariant of deferredMutex ([heap], [heap-items]) - true because heap.Push on a well-formed
+// heap yields a well-formed heap with the one extra entry `item`, and item carries a message (requires, proved at the
+// only call site StartDeferredTimeout).
 //@ func (c *Channel) addToDeferredPQ(item *pqueue.Item)
-//@   props C13
+//@   props C13 C04
 //@   trusted
-//@   requires c != nil && item != nil
+//@   requires c != nil && msgItem(item)
 //@   modifies c.deferredMessages, c.deferredPQ, mapstore(map[MessageID]*pqueue.Item), elems(*pqueue.Item), pqueue.Item.Index
 
 //@ func (c *Channel) StartDeferredTimeout(msg *Message, timeout time.Duration) error
-//@   props C13 C01
+//@   props C13 C01 C04
 //@   requires c != nil && msg != nil
 //@   ensures[one-push] deferredPushes == old(deferredPushes) + 1 && lastDeferredMsg == msg
+//   C04 (area K): the item handed to the deferred map carries this message and the deadline now + timeout, exactly (never early)
+//@   ensures[deadline] lastDeferredItem != nil && unbox(lastDeferredItem.Value, "*Message") == msg && lastDeferredItem.Priority == unixNano(lastNow) + timeout
 //@   ensures[ok-iff-registered] (result == nil) <==> deferredPushOK == old(deferredPushOK) + 1
 //@   ensures[refused-not-registered] result != nil ==> deferredPushOK == old(deferredPushOK)
 //@   ensures[counters-untouched] c.messageCount == old(c.messageCount) && c.requeueCount == old(c.requeueCount) && c.timeoutCount == old(c.timeoutCount)
@@ -254,6 +266,9 @@ package nsqd
 //@   ensures[never-unwrites] backendWrites >= old(backendWrites)
 //@   ensures[counters-untouched] c.messageCount == old(c.messageCount) && c.requeueCount == old(c.requeueCount) && c.timeoutCount == old(c.timeoutCount)
 //@   modifies c.inFlightMessages, c.inFlightPQ, mapstore(map[MessageID]*Message), c.deferredMessages, c.deferredPQ, mapstore(map[MessageID]*pqueue.Item), backendWrites, lastWriteMsg, lastWriteQueue, lastWriteErr
+//   (area K) the call is recorded for Channel.exit's contract (ghosts declared in zz_contracts_kchannel_verif.go)
+//@   onreturn kFlushes := kFlushes + 1
+//@   onreturn kFlushChan := c
 //@   loop 0
 //@     invariant[own-backend] backendWrites >= old(backendWrites) && (backendWrites > old(backendWrites) ==> lastWriteQueue == c.backend)
 //@   loop 1
@@ -275,5 +290,8 @@ package nsqd
 //@   ensures[never-unwrites] backendWrites >= old(backendWrites)
 //@   ensures[counters-untouched] t.messageCount == old(t.messageCount) && t.messageBytes == old(t.messageBytes)
 //@   modifies backendWrites, lastWriteMsg, lastWriteQueue, lastWriteErr
+//   (area K) the call is recorded for Topic.exit's contract (ghosts declared in zz_contracts_kchannel_verif.go)
+//@   onreturn kTopicFlushes := kTopicFlushes + 1
+//@   onreturn kFlushTopic := t
 //@   loop 0
 //@     invariant[own-backend] backendWrites >= old(backendWrites) && (backendWrites > old(backendWrites) ==> lastWriteQueue == t.backend)
